@@ -2,9 +2,12 @@
    [unfinished] of Model/Reader.v (composition of Proofs/ReaderUnfinished.v and Proofs/ScanSim.v). *)
 From Coq Require Import ZArith List Bool Lia.
 From ZV Require Import Model.Regex Generated.LexTables Model.Lexer Model.Reader Model.TokScan
-  Proofs.LexerProofs Proofs.ReaderTotal Proofs.ReaderUnfinished Proofs.ScanSim.
+  Proofs.LexerProofs Proofs.ReaderTotal Proofs.LexerWF Proofs.LexerBC Proofs.ReaderUnfinished Proofs.ScanSim.
 Import ListNotations.
 Open Scope Z_scope.
+
+Lemma text_bc_ok : forall text, bc_ok (text_tokens text) = true.
+Proof. intros text. unfold text_tokens. apply lexer_bc_ok. Qed.
 
 Lemma last_step : forall text s', lex_all init_lstate (text ++ nl) = LOk s' ->
   exists s0, lex_all init_lstate text = LOk s0 /\ lex_rune s0 10 = LOk s'.
@@ -40,50 +43,46 @@ Proof.
 Qed.
 
 (* (A) a text the parser accepts as complete is not an unfinished prefix *)
-Theorem done_not_unfinished : forall c fuel text acc f s',
+Theorem done_not_unfinished : forall fuel text acc f s',
   lex_all init_lstate (text ++ nl) = LOk s' ->
-  parse_whole true c fuel text = ODone acc f ->
-  curly_plain (text_tokens text) = true ->
+  parse_whole true true fuel text = ODone acc f ->
   unfinished text <> Some true.
 Proof.
-  intros c fuel text acc f s' Hl Hd Hc.
-  pose proof (done_not_in_literal _ _ _ _ _ Hd Hc) as Hlit. rewrite Hl in Hlit. simpl in Hlit.
+  intros fuel text acc f s' Hl Hd. pose proof (text_bc_ok text) as Hc.
+  pose proof (done_not_in_literal _ _ _ _ Hd Hc) as Hlit. rewrite Hl in Hlit. simpl in Hlit.
   destruct (end_state _ _ Hl Hlit) as (d & a & p & sg & Ht & Hu).
-  pose proof (done_implies_finished _ _ _ _ _ _ Hd Hc Ht) as Hf. unfold tfinal in Hf.
+  pose proof (done_implies_finished _ _ _ _ _ Hd Hc Ht) as Hf. unfold tfinal in Hf.
   rewrite Hu. destruct a; try (rewrite !andb_false_r in Hf; discriminate).
   apply andb_prop in Hf. destruct Hf as [Hf Hp]. apply andb_prop in Hf. destruct Hf as [Hd0 _].
   apply Z.eqb_eq in Hd0. subst d. destruct p; [discriminate|]. simpl. discriminate.
 Qed.
 
 (* (B) a request for more input on a text that is NOT an unfinished prefix comes from the sign-symbol
-   look-ahead: the last token is the symbol - or +  (n = 0: every yield but those of the '{' look-ahead) *)
-Theorem more_finished_is_sign : forall c fuel text acc toks k s',
+   look-ahead: the last token is the symbol - or +  (every yield: n = 0 and the '{' look-ahead, n > 0) *)
+Theorem more_finished_is_sign : forall fuel text acc n toks k s',
   lex_all init_lstate (text ++ nl) = LOk s' -> in_string_or_rune s' = false ->
-  parse_whole true c fuel text = OSusp acc 0 toks k ->
-  curly_plain (text_tokens text) = true ->
+  parse_whole true true fuel text = OSusp acc n toks k ->
   unfinished text = Some false ->
   exists d a p, trun st0 (text_tokens text) = Some (d, a, p, true).
 Proof.
-  intros c fuel text acc toks k s' Hl Hlit Hs Hc Hu.
+  intros fuel text acc n toks k s' Hl Hlit Hs Hu. pose proof (text_bc_ok text) as Hc.
   destruct (end_state _ _ Hl Hlit) as (d & a & p & sg & Ht & Hu').
-  destruct (more_implies_unfinished _ _ _ _ _ _ _ _ Hs Hc Ht) as (Hlen & sts & Hr & Hsu).
-  destruct toks; [|simpl in Hlen; lia]. simpl in Hr. inv_ok Hr.
+  destruct (more_implies_unfinished _ _ _ _ _ _ _ Hs Hc Ht) as (_ & Hsu & _).
   rewrite Hu in Hu'. unfold sunf in Hsu.
   destruct a; try discriminate.
   destruct (d <? 0); [discriminate|]. inversion Hu' as [Hb]. symmetry in Hb. apply orb_false_elim in Hb. destruct Hb as [Hb1 Hb2].
-  rewrite Hb1, Hb2 in Hsu. simpl in Hsu. subst sg. exists d, WFree, false. subst p. exact Ht.
+  rewrite Hb1, Hb2 in Hsu. simpl in Hsu. subst sg. exists d, WFree, p. exact Ht.
 Qed.
 
 (* (B') the other request for more input — the text ends inside a string or char literal — is an
    unfinished prefix for the scanner too *)
-Theorem more_top_unfinished : forall c fuel text acc f s',
+Theorem more_top_unfinished : forall fuel text acc f s',
   lex_all init_lstate (text ++ nl) = LOk s' ->
-  parse_whole true c fuel text = OMoreTop acc f ->
-  curly_plain (text_tokens text) = true ->
+  parse_whole true true fuel text = OMoreTop acc f ->
   unfinished text = Some true.
 Proof.
-  intros c fuel text acc f s' Hl Hm Hc.
-  pose proof (more_top_in_literal _ _ _ _ _ Hm Hc) as Hlit. rewrite Hl in Hlit. simpl in Hlit.
+  intros fuel text acc f s' Hl Hm. pose proof (text_bc_ok text) as Hc.
+  pose proof (more_top_in_literal _ _ _ _ Hm Hc) as Hlit. rewrite Hl in Hlit. simpl in Hlit.
   pose proof (scan_simulates_lexer _ _ Hl) as HR.
   unfold unfinished. destruct (scan (text ++ nl)) as [[m d] p].
   destruct HR as (a & p' & sg & _ & HM). unfold in_string_or_rune in Hlit.
